@@ -213,6 +213,63 @@ def classify(cs, f):
     return None
 
 
+# ------------------------------------------------------------------------------------------------ dispatch table of the state machine
+# command types of storeFSM's applyFunc table (read from the source on every run) against what this check does with them
+DISPATCH_MODELLED = {   # command type -> harness command kinds that exercise it through the Coq model
+    "CreateDatabaseCommand": ["cdb"], "DropDatabaseCommand": ["dropdb"], "MarkDatabaseDeleteCommand": ["markdb"],
+    "CreateRetentionPolicyCommand": ["crp"], "DropRetentionPolicyCommand": ["droprp"], "MarkRetentionPolicyDeleteCommand": ["markrp"],
+    "SetDefaultRetentionPolicyCommand": ["setdef"], "UpdateRetentionPolicyCommand": ["urp", "urp/rename"],
+    "CreateShardGroupCommand": ["csg"], "DeleteShardGroupCommand": ["delsg", "delsg/cancel"],
+    "CreateMeasurementCommand": ["cmst", "cmst/badschema"], "MarkMeasurementDeleteCommand": ["markmst"], "DropMeasurementCommand": ["dropmst"],
+    "PruneGroupsCommand": ["prunesg", "pruneig"], "DeleteIndexGroupCommand": ["delig"], "CreateDataNodeCommand": ["cnode"],
+    "RemoveNodeCommand": ["rmnode"], "CreateDbPtViewCommand": ["cptv"], "UpdatePtInfoCommand": ["uptinfo"], "ExpandGroupsCommand": ["expand"],
+}
+DISPATCH_ORACLE_ONLY = {"AlterShardKeyCmd": ["altkey"], "UpdateSchemaCommand": ["updschema"]}
+# change the catalogue the statement speaks about but are not generated (see NOTES.md "Not covered")
+DISPATCH_NOT_COVERED = {"ReShardingCommand", "UpdateShardInfoTierCommand", "UpdateIndexInfoTierCommand", "UpdateNodeStatusCommand", "DeleteDataNodeCommand",
+                        "CreateEventCommand", "UpdateEventCommand", "RemoveEventCommand", "CreateDownSamplePolicyCommand", "DropDownSamplePolicyCommand",
+                        "UpdateShardDownSampleInfoCommand", "UpdatePtVersionCommand", "UpdateReplicationCommand", "UpdateMeasurementCommand",
+                        "ReplaceMergeShardsCommand", "RecoverMetaData", "SetDataCommand", "InsertFilesCommand", "SetNodeSegregateStatusCommand"}
+# state outside the C16 statement (users, subscriptions, streams, continuous queries, meta / sql nodes, flags): property C15
+DISPATCH_OUTSIDE = {"CreateSubscriptionCommand", "DropSubscriptionCommand", "CreateUserCommand", "DropUserCommand", "UpdateUserCommand", "SetPrivilegeCommand",
+                    "SetAdminPrivilegeCommand", "CreateMetaNodeCommand", "DeleteMetaNodeCommand", "SetMetaNodeCommand", "CreateSqlNodeCommand",
+                    "UpdateSqlNodeStatusCommand", "UpdateMetaNodeStatusCommand", "MarkTakeoverCommand", "MarkBalancerCommand", "CreateStreamCommand",
+                    "DropStreamCommand", "VerifyDataNodeCommand", "RegisterQueryIDOffsetCommand", "CreateContinuousQueryCommand",
+                    "ContinuousQueryReportCommand", "DropContinuousQueryCommand", "NotifyCQLeaseChangedCommand", "UpdateNodeTmpIndexCommand"}
+
+
+def dispatch_table(ck, hist):
+    src = os.path.join(ck.repo, "app", "ts-meta", "meta", "store_fsm.go")
+    try:
+        text = open(src).read()
+    except OSError as e:
+        ck.broken.append("dispatch table: cannot read %s: %s" % (src, e))
+        return
+    m = re.search(r"var applyFunc = map\[proto2\.Command_Type\][^{]*\{(.*?)\n\}", text, re.S)
+    types = re.findall(r"proto2\.Command_(\w+)\s*:\s*\w+\s*,", m.group(1)) if m else []
+    if len(types) < 40 or len(set(types)) != len(types):
+        ck.broken.append("dispatch table of storeFSM (applyFunc) could not be read from %s (%d entries)" % (src, len(types)))
+        return
+    known = set(DISPATCH_MODELLED) | set(DISPATCH_ORACLE_ONLY) | DISPATCH_NOT_COVERED | DISPATCH_OUTSIDE
+    unclassified = sorted(set(types) - known)
+    vanished = sorted(known - set(types))
+    def ran(kinds):
+        return sum(v for k, v in hist.items() if k.rsplit(":", 1)[0] in kinds)
+    idle = sorted(t for t, kinds in list(DISPATCH_MODELLED.items()) + list(DISPATCH_ORACLE_ONLY.items()) if t in types and ran(kinds) == 0)
+    ck.cov["dispatch"] = {"source": "app/ts-meta/meta/store_fsm.go applyFunc", "entries": len(types),
+                          "modelled_and_generated": sorted(t for t in DISPATCH_MODELLED if t in types),
+                          "oracle_only": sorted(t for t in DISPATCH_ORACLE_ONLY if t in types),
+                          "catalogue_commands_not_covered": sorted(t for t in DISPATCH_NOT_COVERED if t in types),
+                          "outside_the_statement": sorted(t for t in DISPATCH_OUTSIDE if t in types),
+                          "unclassified": unclassified, "no_longer_in_the_table": vanished, "not_exercised_in_this_run": idle}
+    if unclassified:
+        ck.notes.append("command types in storeFSM's dispatch table that this check neither models nor classifies: %s" % unclassified)
+    if vanished:
+        ck.notes.append("command types this check knows but the dispatch table no longer has: %s" % vanished)
+    if idle and not getattr(ck, "replay", None):
+        ck.broken.append("modelled command types that no generated command exercised in this run: %s" % idle)
+
+
 def setup():
     return 0
 
@@ -280,32 +337,70 @@ def main(ck):
     # ---- model evaluation
     shard = 12 if ck.tier == "quick" else 40
     files, modelled = [], []
+    # canary, appended to EVERY evaluation file: a modelled case whose last dump is corrupted (MaxShardGroupID = -5). Every model
+    # variant must report a disagreement on it and wf_b must reject its last dump; an evaluation that does not say so is blind.
+    can_src = next((c for c in cases if c["modelled"] and 2 not in c["res"] and len(c["cmds"]) >= 3 and cmd_coq_x(c["cmds"][-1])), None)
+    canary = None
+    if can_src is not None:
+        canary = json.loads(json.dumps(can_src))
+        canary["dumps"][-1]["max_sg"] = -5
+        canary_term, cm = case_coq(canary)
+        if not cm:
+            canary = None
+    if canary is None:
+        ck.broken.append("C16 evaluation canary could not be built (no fully modelled case in this run)")
     for i in range(0, len(cases), shard):
         terms = []
         for c in cases[i:i + shard]:
             t, m = case_coq(c)
             terms.append(t)
             modelled.append(m)
+        if canary is not None:
+            terms.append(canary_term)
         files.append(("cases%d" % (i // shard),
                       "From Coq Require Import ZArith List Bool. From OG Require Import C16.Model C16.Expand C16.Corr.\n"
                       "Import ListNotations. Open Scope Z_scope.\n"
                       "Definition cases : list (Z * bool * bool * list step_obs) := [\n%s\n].\n"
                       "Definition M := Eval vm_compute in check_cases cases.\nPrint M.\n" % ";\n".join(terms)))
     res = ck.coq_eval_many(files, timeout=1200) if ok else []
+    if len(res) != len(files):
+        ck.broken.append("model evaluation did not run (%d of %d files evaluated)" % (len(res), len(files)))
     verdicts = []
-    for idx, (rc2, o) in enumerate(res):
-        vs = VERDICT_RE.findall(o)
+    extra_n = 1 if canary is not None else 0
+    for idx in range(len(files)):
         want = len(cases[idx * shard:(idx + 1) * shard])
-        if rc2 != 0 or len(vs) != want:
+        rc2, o = res[idx] if idx < len(res) else (1, "not evaluated")
+        vs = VERDICT_RE.findall(o)
+        # fail closed: exactly one verdict record per case (+ the canary), every record complete
+        if rc2 != 0 or len(vs) != want + extra_n or o.count("v_match") != want + extra_n:
             ck.broken.append("model evaluation failed on shard %d: %s" % (idx, o[-600:]))
             verdicts += [None] * want
             continue
+        parsed = []
         for mt, wf, cov in vs:
+            # Coq prints a scope suffix on the first element of a non-empty list of naturals ([5%nat; 7])
+            mt, wf, cov = (re.sub(r"%(nat|Z)\b", "", x) for x in (mt, wf, cov))
             nums = [int(x) for x in re.findall(r"-?\d+", mt)]
+            if len(nums) != len(VARIANTS) or re.sub(r"[\s;\-\d]", "", mt) or re.sub(r"[\s;\d]", "", wf) or re.sub(r"[\s;\d]", "", cov):
+                parsed = None
+                break
             v = {name: nums[k] for k, name in enumerate(VARIANTS)}
             v["wf"] = [int(x) for x in re.findall(r"\d+", wf)]
             v["cover"] = [int(x) for x in re.findall(r"\d+", cov)]
-            verdicts.append(v)
+            parsed.append(v)
+        if parsed is None:
+            ck.broken.append("model evaluation output of shard %d could not be read completely: %s" % (idx, o[-400:]))
+            verdicts += [None] * want
+            continue
+        if extra_n:
+            cv = parsed.pop()
+            last = len(canary["cmds"]) - 1
+            if any(cv[name] == -1 for name in VARIANTS) or last not in cv["wf"]:
+                ck.broken.append("C16 evaluation canary not reported on shard %d (a corrupted dump passed as matching / well-formed): %s" % (idx, cv))
+        verdicts += parsed
+    if len(verdicts) != len(cases):
+        ck.broken.append("model evaluation returned %d verdicts for %d cases" % (len(verdicts), len(cases)))
+        verdicts += [None] * (len(cases) - len(verdicts))
 
     # ---- which variant does the working tree implement?
     variants = list(VARIANTS)
@@ -386,5 +481,6 @@ def main(ck):
                       "one command applied to the real catalogue, dumped and checked by the direct oracle; non-trivial = the case ends "
                       "with at least two shard groups in the catalogue; distinct = different command lists")
     ck.cov["command_histogram"] = hist
+    dispatch_table(ck, hist)
     ck.cov["implementation_matches_variant"] = impl
     ck.cov["samples"] = [c["cmds"][:8] for c in cases[4:6]]
